@@ -166,19 +166,21 @@ def trace_pbe(Nspin, src=None):
 
 
 def wrapper_forwards(sol_name, base_name, Nspin):
-    """gga_c_pbe_sol[_spin](n, [zeta,] dn_spin, **kw) returns base(n, [zeta,] dn_spin, beta=<constant>, **kw): decided on the AST."""
-    fn = ssa.function_ast(source_of("eminus.xc.gga_c_pbe"), sol_name)
+    """gga_c_pbe_sol[_spin](n, [zeta,] **kwargs) returns base(n, [zeta,] beta=<constant>, **kwargs): decided on the AST (its own positional parameters are
+    handed on in order, everything else - the gradients included - travels in **kwargs, the only thing added is a constant beta)."""
+    fn = ssa.function_ast(source_of("eminus.xc.gga_c_pbe_sol"), sol_name)
+    params = [a.arg for a in fn.args.args]
+    if params != (["n", "zeta"] if Nspin == 2 else ["n"]) or fn.args.kwarg is None or fn.args.vararg is not None or fn.args.kwonlyargs or fn.args.defaults:
+        return False
     body = [s for s in fn.body if not (isinstance(s, ast.Expr) and isinstance(s.value, ast.Constant))]
     if len(body) != 1 or not isinstance(body[0], ast.Return) or not isinstance(body[0].value, ast.Call):
         return False
     c = body[0].value
-    want = ["n", "zeta", "dn_spin"] if Nspin == 2 else ["n", "dn_spin"]
     pos = [ast.unparse(a) for a in c.args]
-    named = {k.arg: ast.unparse(k.value) for k in c.keywords if k.arg}
+    named = {k.arg: k.value for k in c.keywords if k.arg}
     star = [ast.unparse(k.value) for k in c.keywords if k.arg is None]
-    passed = pos + [named.get(w) for w in want[len(pos):]]
-    return (ast.unparse(c.func) == base_name and passed[:len(want)] == want and "beta" in named and star == ["kwargs"]
-            and isinstance(ast.literal_eval(named["beta"]), float))
+    return (ast.unparse(c.func) == base_name and pos == params and set(named) == {"beta"} and isinstance(named["beta"], ast.Constant)
+            and isinstance(named["beta"].value, float) and named["beta"].value > 0 and star == [fn.args.kwarg.arg])
 
 
 def numeric_residual(tr, st, r, seed):
